@@ -490,6 +490,23 @@ fn replay(dir: &str, tier: &str) -> Value {
                     }
                 }
             }
+            // s[i] as a STATEMENT whose value is discarded (not the last statement of its body): still evaluated - an index out
+            // of range ends the run with the error, an index in range lets it go on
+            for (j, want) in items(row, "at").iter().enumerate() {
+                if j % 2 == ri % 2 {
+                    continue;
+                }
+                let it = render_ext(&idx[j]);
+                let program = format!("f := (s: {}, i: int) -> any {{ s[i]; {{ s[i]; 0 }}; return std.len(s); }}; f({}, {it})", param_type(s, "fn"), render_value(s));
+                let r = run_text(&interp, &program);
+                cx.evals += 1;
+                cx.at_cases += 1;
+                let got = outcome_json(&r);
+                let expect = if k(want) == "ok" { want_len.clone() } else { want.clone() };
+                if got != expect {
+                    cx.mm.push("at", json!({"mode": "statement", "s": s, "i": idx[j], "program": program, "expected": expect, "observed": got}));
+                }
+            }
             // every in-range index of this sequence in one program (ascending, descending and interleaved order)
             let ok: Vec<(String, Value)> = items(row, "at").iter().enumerate().filter(|(_, w)| k(w) == "ok")
                 .map(|(j, w)| (render_ext(&idx[j]), w["v"].clone())).collect();
